@@ -251,13 +251,16 @@ type sentPart struct {
 	id    uint64
 }
 
+// brokenFileIdx: which file of the broken part cannot be read (mkParts).
+var brokenFileIdx = 0
+
 func mkParts(parts []sentPart, broken ...uint64) []queue.StreamingPartData {
 	var out []queue.StreamingPartData
 	for _, sp := range parts {
 		var fis []queue.FileInfo
 		var total uint64
 		for fi, n := range sp.names {
-			if len(broken) > 0 && broken[0] == sp.id && fi == 0 {
+			if len(broken) > 0 && broken[0] == sp.id && fi == brokenFileIdx {
 				fis = append(fis, queue.FileInfo{Name: n, Reader: &brokenReader{name: n}})
 				total += uint64(len(sp.files[n]))
 				continue
@@ -306,6 +309,71 @@ func TestVerifC17Transfer(t *testing.T) {
 	}
 	kinds := []string{"none", "flip", "drop", "dup", "swap-near", "swap-far", "early-end", "read-error"}
 	var nextID uint64 = 100
+	// Directed: one small part whose files all fit into a single chunk, and a *later* file of it cannot be read. The sender
+	// has packed the leading files into the chunk buffer when the read fails; a failed transfer must leave the receiver
+	// unchanged, so nothing of that part may be installed by this attempt; the retry (which reads fine) installs it exactly.
+	for c := 0; c < verifh.Pick(8, 60); c++ {
+		r := verifh.Rand("c17xfer-laterfile", c)
+		px.setPlan(fault{kind: "none"})
+		cc := dial(65536)
+		if cc == nil {
+			s.Inconclusive("the sender never connected through the proxy")
+			break
+		}
+		nextID++
+		sp := sentPart{id: nextID, files: map[string][]byte{}}
+		nf := 2 + r.Intn(4)
+		for fi := 0; fi < nf; fi++ {
+			b := make([]byte, 1+r.Intn(2000))
+			for i := range b {
+				b[i] = byte(r.Intn(256))
+			}
+			n := fmt.Sprintf("f%d", fi)
+			sp.files[n] = b
+			sp.names = append(sp.names, n)
+		}
+		brokenFileIdx = 1 + r.Intn(nf-1)
+		label := fmt.Sprintf("chunk=65536 parts=1 files=%d sender cannot read file %d of part %d", nf, brokenFileIdx, sp.id)
+		ctx1, cancel1 := context.WithTimeout(context.Background(), 2*time.Second)
+		res1, err1 := cc.SyncStreamingParts(ctx1, mkParts([]sentPart{sp}, sp.id))
+		cancel1()
+		brokenFileIdx = 0
+		cc.Close()
+		time.Sleep(20 * time.Millisecond)
+		rec.mu.Lock()
+		got1, inst1 := rec.installed[sp.id]
+		rec.mu.Unlock()
+		if inst1 {
+			var have []string
+			for n, b := range got1 {
+				have = append(have, fmt.Sprintf("%s:%d bytes", n, len(b)))
+			}
+			sort.Strings(have)
+			s.Violation("c17:transfer:part-the-sender-could-not-read-installed-by-the-failed-attempt", map[string]any{"case": c, "transfer": label, "installed_files": have,
+				"result": fmt.Sprint(res1), "error": fmt.Sprint(err1)})
+		}
+		c2 := dial(65536)
+		if c2 != nil {
+			ctx2, cancel2 := context.WithTimeout(context.Background(), 6*time.Second)
+			res2, err2 := c2.SyncStreamingParts(ctx2, mkParts([]sentPart{sp}))
+			cancel2()
+			c2.Close()
+			time.Sleep(20 * time.Millisecond)
+			rec.mu.Lock()
+			got2, inst2 := rec.installed[sp.id]
+			rec.mu.Unlock()
+			exact := inst2 && len(got2) == len(sp.files)
+			for _, n := range sp.names {
+				exact = exact && string(got2[n]) == string(sp.files[n])
+			}
+			if err2 == nil && res2 != nil && res2.Success && !exact {
+				s.Violation("c17:transfer:installed-part-differs-from-the-sender:retry-after-read-error", map[string]any{"case": c, "transfer": label, "installed": inst2})
+			}
+		}
+		s.Count("c17.transfer.transfers", 1)
+		s.Count("c17.transfer.fault.read-error.later-file", 1)
+		s.Case(label, true)
+	}
 	for c := 0; c < verifh.Pick(120, 3000); c++ {
 		caseStart := time.Now()
 		r := verifh.Rand("c17xfer", c)
